@@ -2721,3 +2721,60 @@ def c08_avail_search(meta, seed, budget):
         yield {"free": rng.randrange(0, 10 ** 9), "af": rng.randrange(0, 10 ** 8), "inf": rng.randrange(0, 10 ** 8),
                "sr": rng.randrange(0, 10 ** 7), "cached": rng.randrange(0, 10 ** 8),
                "lows": [rng.randrange(0, 3000) for _ in range(rng.randrange(0, 4))]}
+
+
+# ---------------------------------------------------------------------------
+# C07: /proc/stat decoding (cpu_times / per_cpu_times) for every kernel column layout
+# ---------------------------------------------------------------------------
+
+@runner("c07:proc_stat")
+def c07_proc_stat(model, meta):
+    from psutil import _pslinux
+    cols, ncpu = int(model["cols"]), int(model["ncpu"])
+    rows = model["rows"]          # rows[0] = aggregate line, then one per CPU; each a list of `cols` ints
+    names = SCPU_FIELDS[:min(cols, 10)]
+    lines = [b"cpu  " + b" ".join(str(v).encode() for v in rows[0]) + b"\n"]
+    for k in range(ncpu):
+        lines.append(b"cpu%d " % k + b" ".join(str(v).encode() for v in rows[k + 1]) + b"\n")
+    lines.append(b"intr 1 2 3\nctxt 5\nbtime 1700000000\n")
+    clk = _pslinux.CLOCK_TICKS
+    with fake_procfs({"stat": b"".join(lines)}):
+        try:
+            tot, per, exc = _pslinux.cpu_times(), _pslinux.per_cpu_times(), None
+        except Exception as e:  # noqa: BLE001
+            tot, per, exc = None, None, e
+    problems = []
+    if exc is not None:
+        problems.append(f"raised {exc!r}")
+    else:
+        def chk(nt, row, what):
+            if tuple(nt._fields) != tuple(names):
+                problems.append(f"{what}: fields {nt._fields}, kernel publishes {cols} columns -> {tuple(names)}")
+                return
+            for f, v in zip(names, row):
+                if abs(getattr(nt, f) - v / clk) > 1e-9 * max(1.0, v / clk):
+                    problems.append(f"{what}.{f} = {getattr(nt, f)}, kernel counter {v} ticks = {v / clk} s")
+                    return
+        chk(tot, rows[0], "cpu_times()")
+        if len(per) != ncpu:
+            problems.append(f"per_cpu_times(): {len(per)} entries for {ncpu} CPUs")
+        else:
+            for k in range(ncpu):
+                chk(per[k], rows[k + 1], f"per_cpu_times()[{k}]")
+    return {"env": {}, "result": problems[:3], "exc": None, "verdict": bool(problems),
+            "tag": problems[0][:160] if problems else None}
+
+
+@search("c07:proc_stat")
+def c07_proc_stat_search(meta, seed, budget):
+    import random
+    rng = random.Random(seed)
+    for cols in (7, 8, 9, 10, 11, 12):
+        for ncpu in (1, 3):
+            yield {"cols": cols, "ncpu": ncpu, "rows": [[(r + 1) * 1000 + c * 7 + 1 for c in range(cols)] for r in range(ncpu + 1)]}
+    n = 0
+    while n < budget:
+        n += 1
+        cols, ncpu = rng.choice([7, 8, 9, 10, 11]), rng.choice([1, 2, 16])
+        yield {"cols": cols, "ncpu": ncpu,
+               "rows": [[rng.choice([0, 1, 99, 10 ** 6, 2 ** 40]) for _ in range(cols)] for _ in range(ncpu + 1)]}
